@@ -712,6 +712,38 @@ func (w *World) fullCompare(exp *Expect) {
 		a := in.acc()
 		partial := in.Kind == KMapPart
 		pan := protect(func() {
+			// a full map forest stores exactly the nodes of the forest and the empty roots of its dead trees
+			// (an entry left behind where the forest has no node is invisible to every read - it holds the
+			// empty hash - until a later move lands it on a live node)
+			if in.Kind == KMapFull && w.reuse == nil {
+				T := in.M.TotalRows
+				stored := map[RI]string{}
+				in.M.Nodes.ForEach(func(pos uint64, lf utreexo.Leaf) error {
+					ri, ok := dec(pos, T)
+					if !ok {
+						ri = RI{255, pos}
+					}
+					stored[ri] = w.sy.T(lf.Hash)
+					return nil
+				})
+				for ri, h := range stored {
+					if want, ok := nodeAt[ri]; ok {
+						if want != h {
+							w.fail([]string{"C10"}, in, "stored.hash", fmt.Sprintf("hash stored at %v", ri), want, h)
+						}
+						continue
+					}
+					emptyRoot := h == "0" && ri.Row < 64 && exp.N>>ri.Row&1 == 1 && ri.Idx == (exp.N>>(ri.Row+1))<<1
+					if !emptyRoot {
+						w.fail([]string{"C10"}, in, "stored.extra", fmt.Sprintf("an entry (hash %s) is stored at %v, where the forest has no node", h, ri), nil, nil)
+					}
+				}
+				for ri, h := range nodeAt {
+					if _, ok := stored[ri]; !ok {
+						w.fail([]string{"C10"}, in, "stored.missing", fmt.Sprintf("the node %s at %v is not stored by the full forest", h, ri), nil, nil)
+					}
+				}
+			}
 			// leaf look-ups: live, dead, internal, junk
 			for s := 0; s < int(exp.N); s++ {
 				h := w.slotHash(s)
